@@ -1,7 +1,7 @@
 (* C01 — value round trip: parsing what was dumped gives the value back. *)
 From Coq Require Import Lia.
 From VF Require Import Model.Writer Proofs.CodecCorrect Proofs.SizeProps Proofs.RoundTrip Proofs.ValueRoundTrip Proofs.ValueRoundTripDyn Proofs.AlignedSize Proofs.AlignedRoundTrip Proofs.BitsCorrect Proofs.BitRun Proofs.BitStruct Proofs.BitMixed Model.Compiler Gen.GeneratedOk.
-From VF Require Proofs.CompilerProps Proofs.CompiledRoundTrip Proofs.CompilerGaps Proofs.CompiledAligned.
+From VF Require Proofs.CompilerProps Proofs.CompiledRoundTrip Proofs.CompilerGaps Proofs.CompilerStatic Proofs.CompiledAligned.
 Open Scope string_scope. Open Scope list_scope. Open Scope Z_scope.
 
 (* For every configuration with a proper byte order, every sequential type with fixed counts (`flat` and `rt_ty`: integers of every width
@@ -84,9 +84,9 @@ Proof. exact uleb_roundtrip. Qed.
 Theorem sleb128_round_trip : forall n bs rest, (leb_write true n = Ok bs -> leb_read true (bs ++ rest) = Ok (n, rest)).
 Proof. exact ileb_roundtrip. Qed.
 
-(* ... and ALIGNED structures of scalars through the compiled reader (one padded block and the seek over the tail padding) *)
+(* ... and ALIGNED structures with a static layout (scalars, nested structures and unions, arrays of them) through the compiled reader (one padded block and the seek over the tail padding) *)
 Theorem compiled_aligned_value_round_trip : forall c, endian_ok (c_endian c) -> forall fuel nm fs p n,
-  Forall (CompilerGaps.acls c) fs -> NoDup (map f_name fs) -> CompiledAligned.size_fits c fs -> compile_plan c true fs = Ok p ->
+  Forall (CompilerStatic.stcls c fuel true) fs -> NoDup (map f_name fs) -> CompiledAligned.size_fits c fs -> compile_plan c true fs = Ok p ->
   aflat c (TStruct nm fs true) = true -> rt_ty c (TStruct nm fs true) = true -> nonempty_structs (TStruct nm fs true) = true ->
   ty_size c (TStruct nm fs true) = Some n ->
   forall v wpos bs, has_ty c (TStruct nm fs true) v -> (req c (TStruct nm fs true) | wpos) -> write_ty c (TStruct nm fs true) v wpos = Ok bs ->
@@ -195,15 +195,19 @@ Proof.
   - eexists. split; [vm_compute; reflexivity|]. vm_compute. split; reflexivity.
 Qed.
 
-(* non-vacuity of the compiled aligned theorem: struct { uint8 a; uint32 b; int16 c; char d[3]; uint64 e; uint24 f; } aligned *)
+(* non-vacuity of the compiled aligned theorems: struct N { uint8 x; uint32 y; }; struct { uint8 a; N n; uint16 b; N arr[2]; char d[3]; uint8 m[2][2]; uint64 q; } aligned *)
 Definition exca_cfg := mkCfg "<" (PInt 8 false true) 8 [] [].
-Definition exca_fs := [Fld "a" false (TPrim (PInt 1 false true) 1) None None; Fld "b" false (TPrim (PInt 4 false true) 4) None None;
-                      Fld "c" false (TPrim (PInt 2 true true) 2) None None; Fld "d" false (TArr (TPrim PChar 1) (LFixed 3)) None None;
-                      Fld "e" false (TPrim (PInt 8 false true) 8) None None; Fld "f" false (TPrim (PInt 3 false false) 4) None None].
-Example exca_class : Forall (CompilerGaps.acls exca_cfg) exca_fs /\ NoDup (map f_name exca_fs) /\ CompiledAligned.size_fits exca_cfg exca_fs /\ (exists p, compile_plan exca_cfg true exca_fs = Ok p) /\ aflat exca_cfg (TStruct "m" exca_fs true) = true /\ rt_ty exca_cfg (TStruct "m" exca_fs true) = true /\ nonempty_structs (TStruct "m" exca_fs true) = true.
+Definition exca_N := TStruct "N" [Fld "x" false (TPrim (PInt 1 false true) 1) None None; Fld "y" false (TPrim (PInt 4 false true) 4) None None] true.
+Definition exca_fs := [Fld "a" false (TPrim (PInt 1 false true) 1) None None; Fld "n" false exca_N None None; Fld "b" false (TPrim (PInt 2 false true) 2) None None;
+                      Fld "arr" false (TArr exca_N (LFixed 2)) None None; Fld "d" false (TArr (TPrim PChar 1) (LFixed 3)) None None;
+                      Fld "m" false (TArr (TArr (TPrim (PInt 1 false true) 1) (LFixed 2)) (LFixed 2)) None None; Fld "q" false (TPrim (PInt 8 false true) 8) None None].
+Example exca_class : Forall (CompilerStatic.stcls exca_cfg 50 true) exca_fs /\ NoDup (map f_name exca_fs) /\ CompiledAligned.size_fits exca_cfg exca_fs /\ (exists p, compile_plan exca_cfg true exca_fs = Ok p) /\ aflat exca_cfg (TStruct "m" exca_fs true) = true /\ rt_ty exca_cfg (TStruct "m" exca_fs true) = true /\ nonempty_structs (TStruct "m" exca_fs true) = true.
 Proof.
   split; [|split; [|split; [|split]]].
-  - repeat (apply Forall_cons; [split; [reflexivity|]; split; [split; [reflexivity|]; split; [vm_compute; discriminate|vm_compute; split; [reflexivity|discriminate]]|vm_compute; discriminate]|]).
+  - repeat (apply Forall_cons; [split; [reflexivity|]; split; [split; [reflexivity|];
+        first [ left; split; [vm_compute; discriminate|vm_compute; split; [reflexivity|discriminate]]
+              | right; split; [reflexivity|]; split; [reflexivity|]; split; [apply CompilerProps.sub_ok_of_shift; [vm_compute; reflexivity|intros n H; vm_compute in H; injection H as <-; lia]|eexists; vm_compute; reflexivity] ]
+        | intros _; vm_compute; discriminate]|]).
     apply Forall_nil.
   - cbn. repeat constructor; cbn; intuition discriminate.
   - intros lay n H. vm_compute in H. injection H as <-. cbn [l_size]. intros H. injection H as <-. lia.
